@@ -237,6 +237,9 @@ class OptionsExact(ParseHarness):
             self.o.append({'derive': z3.String(t + 'derive'), 'attribute_prefix': z3.String(t + 'prefix'), 'text_identifier': z3.String(t + 'textid')})
         self.sorted = z3.Bool('o_sorted')
     def consts(self): return ParseHarness.consts(self) + [v for o in self.o for v in o.values()] + [self.sorted]
+    def probe_domains(self):
+        probes = ['', ' ', 'Debug', ' Debug, Clone ', '@', 'x_', '$text', ' t']
+        return {str(v): probes for o in self.o for v in o.values()}
     def mk(self, m, o, srt):
         return RStruct('Options', {'text_identifier': RStr(Frags([o['text_identifier']])), 'attribute_prefix': RStr(Frags([o['attribute_prefix']])),
                                    'derive': RStr(Frags([o['derive']])), 'sort': REnum('SortBy', 'XmlName' if srt else 'Unsorted', [])})
